@@ -163,3 +163,5 @@ pub open spec fn parse_spec(data: Seq<u8>, b: Seq<u8>) -> Option<Seq<PV>> { pars
 pub open spec fn parse_result_is(res: Result<Vec<Part>, String>, want: Option<Seq<PV>>) -> bool {
     match want { None => res.is_err(), Some(ps) => res.is_ok() && pvs(res.unwrap()@) == ps }
 }
+
+pub open spec fn s_boundary_eq() -> Seq<char> { seq!['b', 'o', 'u', 'n', 'd', 'a', 'r', 'y', '='] }
